@@ -8,8 +8,12 @@
 //               IM  is_maintenance_mode      J   join_maintenance_thread
 //               C   create_session           K<n> process_key   G<n> get_context
 //               F<n> find_session            D<n> destroy_session   (n = index of the create_session call)
-//               H1 / H0  set_notification_handler(handler / NULL)
-//     schedule  string over {c,w}: which thread runs from its cut point to its next one
+//               H1 / H0  set_notification_handler(handler / NULL); each call has its own context object (generation)
+//               P<r>     harness only: the handler schedules one task (behaviour r) from inside its next result notification
+//               task behaviour r: 1 returns true, 0 returns false, 2 throws std::runtime_error
+//     schedule  string over {c,w}: which thread runs from its cut point to its next one;
+//               C = a client step the model says must wait for a mutex: tried for 0.3 s ("blocked"/"unblocked"),
+//               then everything is run to completion
 //   stdout, one line per case: the observations in global order, e.g.
 //     ret:H:0 sched:0 sched:1 sched:2 spawn ret:SM:1 notify:start exec:0 ... done ret:J:0
 //   or  STUCK <why> | <observations so far>   when the schedule cannot be followed.
@@ -39,6 +43,7 @@
 #include <map>
 #include <mutex>
 #include <sstream>
+#include <stdexcept>
 #include <thread>
 #include <unistd.h>
 
@@ -58,7 +63,10 @@ thread_local int role = -1;
 std::vector<std::string> events;
 std::map<const void*, int> task_ids;
 int next_task_id = 0;
-std::deque<bool> next_results;
+std::deque<int> next_results;   // 1 ok, 0 fails, 2 throws
+std::deque<int> handler_plan;   // tasks the handler schedules from inside its next result notifications
+long setter_calls = 0;          // generation of the installed handler = number of set_notification_handler calls so far
+const int HANDLER_INSIDE = 100; // harness-side cut point: inside the handler invocation
 bool pop_installation_update = false;
 int task_sleep_us = 0;
 std::atomic<int> stress_running_tasks{0};
@@ -86,6 +94,8 @@ void yield_hook(int point) {
     role = 1;  // any thread that is not the scripted client is the std::async worker
   if (role == 0 && (point == RIME_VERIF_NOTIFY_ENTER || point == RIME_VERIF_NOTIFY_LOCKED))
     return;  // session-level notifications on the client thread are not cut points of the model
+  if (role == 1 && point == RIME_VERIF_SCHEDULE_ENTER)
+    return;  // ScheduleTask called by the handler on the worker thread: part of the invocation step
   if (point == RIME_VERIF_STARTWORK_SPAWNED)
     log_event("spawn");
   if (point == RIME_VERIF_GETSESSION_ACCEPTED || point == RIME_VERIF_CREATESESSION_ACCEPTED)
@@ -105,15 +115,17 @@ void task_hook(int event, const void* task) {
 }
 
 struct TestTask : DeploymentTask {
-  bool result;
-  explicit TestTask(bool r) : result(r) {}
+  int result;
+  explicit TestTask(int r) : result(r) {}
   bool Run(Deployer*) override {
     if (task_sleep_us) {
       ++stress_running_tasks;
       usleep(task_sleep_us);
       --stress_running_tasks;
     }
-    return result;
+    if (result == 2)
+      throw std::runtime_error("verif: task throws");
+    return result == 1;
   }
 };
 struct TestTaskComponent : DeploymentTask::Component {
@@ -121,7 +133,7 @@ struct TestTaskComponent : DeploymentTask::Component {
   explicit TestTaskComponent(std::string n) : name(std::move(n)) {}
   TestTask* Create(TaskInitializer) override {
     bool scripted = name != "clean_old_log_files" && (name != "installation_update" || pop_installation_update);
-    bool r = true;
+    int r = 1;
     if (scripted && !next_results.empty()) {
       r = next_results.front();
       next_results.pop_front();
@@ -130,23 +142,45 @@ struct TestTaskComponent : DeploymentTask::Component {
   }
 };
 
-void on_notify(void*, RimeSessionId id, const char* type, const char* value) {
-  if (id == 0 && std::string(type) == "deploy")
-    log_event(std::string("notify:") + value);
+void on_notify(void* ctx, RimeSessionId id, const char* type, const char* value) {
+  if (id != 0 || std::string(type) != "deploy")
+    return;
+  log_event("hin:" + std::to_string(reinterpret_cast<intptr_t>(ctx)));
+  log_event(std::string("notify:") + value);
+  if (std::string(value) != "start") {
+    int planned = -1;
+    {
+      std::lock_guard<std::mutex> l(M);
+      if (!handler_plan.empty()) {
+        planned = handler_plan.front();
+        handler_plan.pop_front();
+      }
+    }
+    if (planned >= 0)
+      Service::instance().deployer().ScheduleTask(New<TestTask>(planned));
+  }
+  if (role == 1 && !free_run.load())
+    park(1, HANDLER_INSIDE);  // the invocation is in progress: the controller decides who runs next
+  log_event("hout");
 }
 
 struct Call {
   std::string op;
   int n = 0;
-  std::vector<bool> rs;
+  std::vector<int> rs;
 };
 
 bool parse_call(const std::string& tok, Call& c) {
   if (tok.rfind("SM:", 0) == 0 || tok.rfind("SU:", 0) == 0) {
     c.op = tok.substr(0, 2);
     for (char ch : tok.substr(3))
-      c.rs.push_back(ch == '1');
+      c.rs.push_back(ch == '1' ? 1 : ch == '2' ? 2 : 0);
     return c.rs.size() == 3;
+  }
+  if (tok.size() == 2 && tok[0] == 'P') {
+    c.op = "P";
+    c.n = tok[1] == '1' ? 1 : tok[1] == '2' ? 2 : 0;
+    return true;
   }
   if (tok == "IM" || tok == "J" || tok == "C" || tok == "H1" || tok == "H0") {
     c.op = tok;
@@ -214,11 +248,17 @@ void do_call(const Call& c) {
       session_index.erase(id);
     o << "ret:D:" << (r ? 1 : 0);
   } else if (c.op == "H1") {
-    api->set_notification_handler(on_notify, nullptr);
+    long g = ++setter_calls;
+    api->set_notification_handler(on_notify, reinterpret_cast<void*>(g));
     o << "ret:H:0";
   } else if (c.op == "H0") {
+    ++setter_calls;
     api->set_notification_handler(nullptr, nullptr);
     o << "ret:H:0";
+  } else if (c.op == "P") {
+    std::lock_guard<std::mutex> l(M);
+    handler_plan.push_back(c.n);
+    o << "ret:P:0";
   }
   log_event(o.str());
 }
@@ -289,6 +329,24 @@ std::string controller_step(int t, int deadline_ms = 10000) {
   }
 }
 
+// run the worker, then the client, to completion under the controller (tolerant of refusals)
+void run_to_completion() {
+  for (int n = 0; n < 400; ++n) {
+    bool alive, cdone;
+    {
+      std::lock_guard<std::mutex> l(M);
+      alive = worker_alive;
+      cdone = slots[0].done;
+    }
+    if (alive && controller_step(1, 500).empty())
+      continue;
+    if (cdone)
+      break;
+    if (!controller_step(0, 500).empty() && !alive)
+      break;
+  }
+}
+
 void reset_between_cases(std::thread& client) {
   Deployer& dep = Service::instance().deployer();
   free_run.store(true);
@@ -312,6 +370,8 @@ void reset_between_cases(std::thread& client) {
   task_ids.clear();
   next_task_id = 0;
   next_results.clear();
+  handler_plan.clear();
+  setter_calls = 0;
   created.clear();
   session_index.clear();
   next_session_index = 0;
@@ -351,7 +411,7 @@ int controlled(const std::string& work) {
       continue;
     }
     if (h0)
-      api->set_notification_handler(on_notify, nullptr);
+      api->set_notification_handler(on_notify, nullptr);  // generation 0
     free_run.store(false);
     client = std::thread(client_main, script);
     {
@@ -368,26 +428,23 @@ int controlled(const std::string& work) {
     if (tolerant) {
       for (i = 1; i < sched.size(); ++i)
         controller_step(sched[i] == 'c' ? 0 : 1, 500);
-      for (int n = 0; n < 400; ++n) {
-        bool alive, cdone;
-        {
-          std::lock_guard<std::mutex> l(M);
-          alive = worker_alive;
-          cdone = slots[0].done;
-        }
-        if (alive && controller_step(1, 500).empty())
-          continue;
-        if (cdone)
-          break;
-        if (!controller_step(0, 500).empty() && !alive)
-          break;
-      }
+      run_to_completion();
     } else {
+      bool probed = false;
       for (; i < sched.size(); ++i) {
+        if (sched[i] == 'C') {
+          // a client step the model refuses (it must wait for a mutex): try it for 0.3 s
+          std::string r = controller_step(0, 300);
+          log_event(r.empty() ? "unblocked" : "blocked");
+          probed = true;
+          continue;
+        }
         why = controller_step(sched[i] == 'c' ? 0 : 1);
         if (!why.empty())
           break;
       }
+      if (probed && why.empty())
+        run_to_completion();
     }
     std::string ev = join_events();
     if (!why.empty())
@@ -447,7 +504,7 @@ int stress(double seconds, bool poll_handler) {
   long rounds = 0, polls = 0, accepted_during = 0, refused = 0, lost_sm = 0;
   while (std::chrono::steady_clock::now() < end) {
     ++rounds;
-    next_results.assign({true, rounds % 3 != 0, true});
+    next_results.assign({1, rounds % 3 != 0 ? 1 : (rounds % 2 ? 0 : 2), 1});
     pop_installation_update = rounds % 2 == 0;
     if (rounds % 2)
       api->start_maintenance(True);
@@ -470,7 +527,7 @@ int stress(double seconds, bool poll_handler) {
       }
       if (in_round == 3 && rounds % 4 == 1) {
         // a second start while the first is running (the worker's exit window is hit by chance)
-        next_results.assign({true, true, true});
+        next_results.assign({1, 1, 1});
         pop_installation_update = true;
         api->sync_user_data();
       }
